@@ -260,6 +260,10 @@ filters = st.one_of(st.none(), st.tuples(st.sampled_from(["exact", "prefix", "su
 def export_case(draw, disabled=()):
     if draw(st.integers(0, 3)) == 0:
         p = draw(layout_program(structured=True, max_subs=3, max_slots=6))
+    elif draw(st.integers(0, 2)) == 0:
+        # programs that only check their position / the group size: varied GroupIndex / GroupSize sets
+        # (gaps, runs) for the block annotations
+        p = draw(semantic_program(profile="direct", disabled=disabled, max_stmts=8, focus=["GroupIndex", "GroupSize"]))
     else:
         p = draw(semantic_program(profile="modelled", disabled=disabled, max_stmts=8))
     p = {k: p[k] for k in p if k in ("version", "items", "mode", "features", "structured")}
